@@ -22,7 +22,7 @@ needInput, issues, cmdOutput, end, close, compile-success, export-complete, stat
 objects must equal the model's sequence; plain mode: standard output must be exactly the model's lines, tag \
 lines and numbered choices, separated only by prompts and (after help / end / closed input) one free line. \
 Compile mode: the file written by -o is byte-identical to Compiler::with_options(same options).compile; a \
-source with a planted error exits non-zero and reports exactly the library's error text (file name and line \
+source with a planted error exits non-zero (also in the parse-only statistics mode -s, whose numbers must equal the library's) and reports exactly the library's error text (file name and line \
 included when the library supplies them) on stderr (plain) or in an issues object (JSON). Non-trivial = a play \
 case whose transcript shows at least one hostile character and one choice, or a compile case; distinct = \
 (program, script, mode) hash.";
@@ -477,6 +477,72 @@ pub fn exec(env: &Env, case: &J, acc: &mut Acc) -> Result<(), Fail> {
             }
             Ok(())
         }
+        "stats" => {
+            // -s: parse only; a source the parse-only pipeline rejects must exit non-zero and
+            // carry the library's message, an accepted one must exit 0 with the statistics
+            let mut args = vec!["-s"];
+            if json_mode {
+                args.push("-j");
+            }
+            args.push(file);
+            let r = run_tool(env, &dir, &args, b"").map_err(Fail::harness)?;
+            if died(&r) {
+                return Err(v("tool-panic", format!("the tool died in stats mode: {}", clip(&String::from_utf8_lossy(&r.stderr)))));
+            }
+            acc.nontrivial(fnv(&case.to_string()));
+            let lib_stats = guard(|| {
+                bladeink_compiler::Compiler::with_options(bladeink_compiler::CompilerOptions {
+                    count_all_visits: true,
+                    source_filename: Some(file.to_string()),
+                })
+                .compile_to_stats_with_file_handler(src, |inc| Err(bladeink_compiler::CompilerError::invalid_source(format!("Failed to read included file '{inc}'"))))
+            });
+            match lib_stats {
+                Err(_) => {
+                    acc.discard("compiler_panic_is_C06");
+                    Ok(())
+                }
+                Ok(Ok(st)) => {
+                    acc.class("stats:ok");
+                    if r.code != Some(0) {
+                        return Err(v("stats-exit", format!("the library computes statistics for this source but the tool exits with {:?}", r.code)));
+                    }
+                    if json_mode {
+                        let objs = parse_stream(&r.stdout).map_err(|e| v("json-stream", format!("stats, JSON mode: {e}")))?;
+                        let ok = objs.iter().any(|o| o.get("stats").map(|s| s["knots"] == json!(st.knots) && s["choices"] == json!(st.choices) && s["words"] == json!(st.words)).unwrap_or(false));
+                        if !ok {
+                            return Err(v("stats-values", format!("JSON mode: no stats object with the library's numbers; stdout: {}", clip(&String::from_utf8_lossy(&r.stdout)))));
+                        }
+                    } else {
+                        let out = String::from_utf8_lossy(&r.stdout);
+                        if !out.contains(&format!("Knots: {}", st.knots)) || !out.contains(&format!("Choices: {}", st.choices)) {
+                            return Err(v("stats-values", format!("plain mode: the statistics differ from the library's: {}", clip(&out))));
+                        }
+                    }
+                    Ok(())
+                }
+                Ok(Err(e)) => {
+                    acc.class("stats:error");
+                    let e = e.to_string();
+                    if r.code == Some(0) {
+                        return Err(v("compile-error-exit-zero", format!("stats mode: the library rejects this source ({e}) but the tool exits 0")));
+                    }
+                    // the tool reads an included file relative to the source; the message about a
+                    // missing include carries the OS error text, so only its beginning is compared
+                    let needle: String = e.split("': ").next().unwrap_or(&e).to_string();
+                    let shown = if json_mode { String::from_utf8_lossy(&r.stdout).to_string() } else { String::from_utf8_lossy(&r.stderr).to_string() };
+                    if json_mode {
+                        parse_stream(&r.stdout).map_err(|e| v("json-stream", format!("stats error, JSON mode: {e}")))?;
+                    }
+                    let needle_json = serde_json::to_string(&needle).unwrap_or_default();
+                    let needle_json = needle_json.trim_matches('"');
+                    if !shown.contains(&needle) && !shown.contains(needle_json) {
+                        return Err(v("compile-error-message", format!("stats mode does not carry the compiler's message {needle:?}: {}", clip(&shown))));
+                    }
+                    Ok(())
+                }
+            }
+        }
         _ => {
             let Ok(j) = lib else {
                 acc.discard("compile_error");
@@ -587,6 +653,7 @@ pub fn run(env: &Env) -> i32 {
             let mut t = Tape::new(tape);
             let json_mode = t.chance(1, 2);
             let plant = t.pick(8);
+            let stats_mode = t.chance(1, 3);
             let (mut src, _, _) = gen_program(&mut t);
             match plant {
                 0 => src.push_str("-> nowhere_at_all\n"),
@@ -597,7 +664,8 @@ pub fn run(env: &Env) -> i32 {
                 5 => src.push_str("* [choice\n"),
                 _ => {}
             }
-            let case = json!({"mode": "compile", "json": json_mode, "source": src});
+            let mode = if stats_mode { "stats" } else { "compile" };
+            let case = json!({"mode": mode, "json": json_mode, "source": src});
             exec(env, &case, acc)
         },
     );
